@@ -1483,3 +1483,27 @@ Proof. intro W. rewrite insert_flat. apply grefs_fold_insert. exact W. Qed.
 
 Lemma store_insert g bs : g_store (insert g bs) = g_store g.
 Proof. rewrite insert_flat. apply store_fold_insert. Qed.
+
+(* ======================================================================================== *)
+(** ** The rule on coherent states (a moving point mass induces a velocity of its composite
+    object — docstring of [yield_independent_lifted_identifiers]; kept by the event handlers, C12) *)
+
+Definition coherent (g : gstate) : Prop := forall i j, lifted g (Leaf i j) -> lifted g (Root i).
+
+Lemma leaf_valid_root g i j : valid g (Leaf i j) -> i < length (g_phys g).
+Proof.
+  unfold valid; simpl. intro H. apply nth_error_Some. destruct (nth_error (g_phys g) i); congruence.
+Qed.
+
+Theorem active_ids_rule2_coherent g : ginv g -> g_levels g <> 1 -> coherent g -> 0 < g_npr g ->
+  forall id, In id (active_ids g) <->
+  match id with
+  | Root i => i < length (g_phys g) /\ forall j, j < g_npr g -> lifted g (Leaf i j)
+  | Leaf i j => j < g_npr g /\ lifted g (Leaf i j) /\ exists j', j' < g_npr g /\ ~ lifted g (Leaf i j')
+  end.
+Proof.
+  intros G L Co Np id. rewrite (active_ids_rule2 g G L id). destruct id as [i|i j].
+  - split; [tauto|]. intros [Hi A]. split; [exact Hi|]. split; [|exact A]. apply (Co i 0). apply A. exact Np.
+  - split; [tauto|]. intros [Hj [Lj E]]. split; [|split; [apply (Co i j); exact Lj | tauto]].
+    apply (leaf_valid_root g i j). apply (gi_lvalid g G). exact Lj.
+Qed.
